@@ -13,6 +13,25 @@ Import ListNotations.
 
 Definition bytes := list N.
 
+(* list helpers indexed by binary numbers (unary nat of the size of a head buffer is
+   expensive to build under vm_compute); specified against firstn/skipn/length in
+   WireProofs.v *)
+Fixpoint lenN_acc (l : bytes) (acc : N) : N :=
+  match l with [] => acc | _ :: r => lenN_acc r (N.succ acc) end.
+Definition lenN (l : bytes) : N := lenN_acc l 0%N.
+
+Fixpoint firstnN (n : N) (l : bytes) : bytes :=
+  match l with
+  | [] => []
+  | x :: r => if (n =? 0)%N then [] else x :: firstnN (N.pred n) r
+  end.
+
+Fixpoint skipnN (n : N) (l : bytes) : bytes :=
+  match l with
+  | [] => []
+  | x :: r => if (n =? 0)%N then l else skipnN (N.pred n) r
+  end.
+
 (* ---- varint ------------------------------------------------------------- *)
 
 (* protowire error codes that the callers distinguish *)
@@ -83,7 +102,7 @@ Definition parse_len (b : bytes) : lres :=
   | VErr _ => LErr
   | VOk u n =>
     if (max_int <? u)%N then LErr
-    else if (N.of_nat (length b - n) <? u)%N then LErr
+    else if (lenN b - N.of_nat n <? u)%N then LErr
     else LOk (N.to_nat u) n
   end.
 
@@ -94,11 +113,11 @@ Definition skip_field (b : bytes) (typ : N) : sres :=
   if (typ =? ty_varint)%N then
     match parse_varint b with VOk _ n => SkOk n | VErr _ => SkErr end
   else if (typ =? ty_fixed64)%N then
-    if 8 <=? length b then SkOk 8 else SkErr
+    if (8 <=? lenN b)%N then SkOk 8 else SkErr
   else if (typ =? ty_bytes)%N then
     match parse_len b with LOk ln n => SkOk (n + ln) | LErr => SkErr end
   else if (typ =? ty_fixed32)%N then
-    if 4 <=? length b then SkOk 4 else SkErr
+    if (4 <=? lenN b)%N then SkOk 4 else SkErr
   else SkErr.
 
 (* ---- ordered seek ------------------------------------------------------- *)
@@ -191,7 +210,7 @@ Definition get_enum_field (b : bytes) (num : N) : ures :=
 (* ---- encoders (reference side) ------------------------------------------ *)
 
 Definition enc_len_field (num : N) (v : bytes) : bytes :=
-  enc_tag num ty_bytes ++ enc_varint (N.of_nat (length v)) ++ v.
+  enc_tag num ty_bytes ++ enc_varint (lenN v) ++ v.
 
 Definition enc_varint_field (num v : N) : bytes :=
   enc_tag num ty_varint ++ enc_varint v.
